@@ -32,20 +32,28 @@ def one(mid):
         r = subprocess.run(["git", "-C", wt, "apply", patch], stdout=subprocess.PIPE, stderr=subprocess.STDOUT, text=True)
         if r.returncode != 0:
             return mid, dict(error="patch does not apply: " + r.stdout[-200:])
-        t0 = time.time()
         env = dict(os.environ, VERIF_REPO=wt, VERIF_LANE=str(lane))
-        p = subprocess.run([os.path.join(ROOT, "vcheck"), pid, "--tier", "quick"], env=env, cwd=ROOT, stdout=subprocess.PIPE, stderr=subprocess.STDOUT, text=True, timeout=3600)
-        lines = [l for l in p.stdout.split("\n") if l.startswith(("VIOLATION", "OK ", "ERROR", "KNOWN"))]
-        what = ""
-        for l in lines:
-            if l.startswith("VIOLATION") and "replay=" in l:
-                try:
-                    what = str(json.load(open(l.split("replay=")[1].split()[0])).get("what"))[:300]
-                except Exception:
-                    pass
-        res = dict(check=pid, exit=p.returncode, line=(lines[-1] if lines else p.stdout[-200:])[:200], what=what, secs=round(time.time() - t0))
-        meta["detected_by"] = [pid] if p.returncode == 1 else []
-        meta["detection"] = res
+        detected, runs = [], []
+        # the check of the property the change was written against, then (only if that one stays quiet) the checks of
+        # neighbouring properties named in meta["also"] - a change to shared code may break a neighbour's property instead
+        for q in [pid] + [x for x in meta.get("also", []) if x != pid]:
+            t0 = time.time()
+            p = subprocess.run([os.path.join(ROOT, "vcheck"), q, "--tier", "quick"], env=env, cwd=ROOT, stdout=subprocess.PIPE, stderr=subprocess.STDOUT, text=True, timeout=3600)
+            lines = [l for l in p.stdout.split("\n") if l.startswith(("VIOLATION", "OK ", "ERROR", "KNOWN"))]
+            what = ""
+            for l in lines:
+                if l.startswith("VIOLATION") and "replay=" in l:
+                    try:
+                        what = str(json.load(open(l.split("replay=")[1].split()[0])).get("what"))[:300]
+                    except Exception:
+                        pass
+            runs.append(dict(check=q, exit=p.returncode, line=(lines[-1] if lines else p.stdout[-200:])[:200], what=what, secs=round(time.time() - t0)))
+            if p.returncode == 1:
+                detected.append(q)
+                break
+        res = runs[-1]
+        meta["detected_by"] = detected
+        meta["detection"] = runs
         json.dump(meta, open(meta_p, "w"), indent=1)
         return mid, res
     finally:
